@@ -55,7 +55,7 @@ PROFILES = {
     "C05": profile(nsides=(3, 4), names=2, literal_ids=1, napps=(1, 2),
                    w={"third": 6, "claim": 8, "open": 9, "close": 6, "release": 4, "reconnect": 5, "resend": 4,
                       "drop": 4, "restart": 1.0, "add": 6}),
-    "C06": profile(napps=(2, 3), names=2, literal_ids=2, share_ids_p=0.0,
+    "C06": profile(napps=(2, 3), names=2, literal_ids=2, share_ids_p=0.12,
                    w={"restart": 1.0, "adv_sweep": 1.5, "adv_long": 0.6}),
     "C07": profile(names=4, nsides=(2, 3),
                    w={"claim": 12, "allocate": 5, "release": 10, "list": 5, "close": 6, "open": 5, "add": 3,
@@ -75,7 +75,7 @@ PROFILES = {
                       "kill": 0.0}),
     "C16": profile(usage_p=1.0, blur=[1, 7, 60, 61, 100, 900, 3600, 86400],
                    w={"close": 8, "release": 7, "persona": 3, "adv_long": 1.5, "adv_sweep": 2, "adv_small": 6}),
-    "C17": profile(unicode_p=0.5, welcome_p=0.7,
+    "C17": profile(unicode_p=0.5, welcome_p=0.7, share_ids_p=0.05,
                    w={"bad": 14, "connect_unbound": 2, "ping": 2, "third": 1}),
     "C10": profile(steps=(6, 22), usage_p=0.6, nsides=(2, 3), names=3, autoping_p=0.1,
                    w={"claim": 9, "release": 7, "close": 8, "open": 7, "add": 5, "adv_sweep": 1.5, "adv_long": 1.0,
